@@ -8,6 +8,7 @@
 //!   new sink <threshold> <timeout_ms> <sink name>
 //!   start <sender> <single|batch> <id,id,…> <t>          => pending <C|O|H> | rej <C|O|H> dlq=<entries> del=<ids>
 //!   finish <sender> <ok|fail> <k> <msg hex> <t>           => ok|err:<msg hex> <C|O|H> dlq=<entries> del=<ids>
+//!   engine <n> <inner error hex> => dlq=<entries>   (Engine::load → wrap_with_resilience around a file sink on /dev/full)
 //!   threads <n> <calls>  => admitted=<count> <C|O|H>   (real threads on an open breaker whose timeout has passed)
 //!     entries = new DLQ file lines read back: <connector hex>|<error hex>|<event id>;…  (or -)
 use crate::util::Ctx;
@@ -334,7 +335,52 @@ fn random_sink(ctx: &mut Ctx, tag: u64, sequential: bool) {
     }
 }
 
+/// `SinkRegistry::wrap_with_resilience` as the engine applies it: a VPL program whose `.to()` target is a
+/// file connector on /dev/full (every write fails with ENOSPC). `Engine::load` wraps the sink with the
+/// default breaker (threshold 5, 30 s) and the DLQ `varpulis-dlq.jsonl` in the working directory.
+///   engine <n> <inner error hex> => dlq=<entries>
+fn engine_case(ctx: &mut Ctx, n: u64) {
+    if !std::path::Path::new("/dev/full").exists() { ctx.notes.push("engine case skipped: no /dev/full".into()); return; }
+    let dlq_path = std::path::PathBuf::from("varpulis-dlq.jsonl");
+    let _ = std::fs::remove_file(&dlq_path);
+    let base = Instant::now();
+    verif_clock::set(Some(base));
+    let src = "connector Out = file(path: \"/dev/full\")\n\nstream S = In\n    .emit(id: id)\n    .to(Out)\n";
+    let program = match varpulis_parser::parse(src) { Ok(p) => p, Err(e) => { eprintln!("generator error: engine case program does not parse: {e:?}"); std::process::exit(3) } };
+    let rt = tokio::runtime::Builder::new_current_thread().enable_all().build().unwrap();
+    let (tx, mut rx) = tokio::sync::mpsc::channel::<Event>(1024);
+    let mut engine = varpulis_runtime::engine::Engine::new(tx);
+    if let Err(e) = engine.load(&program) { eprintln!("generator error: engine case program does not load: {e}"); std::process::exit(3) }
+    rt.block_on(async {
+        for i in 1..=n {
+            verif_clock::set(Some(base + Duration::from_millis(i)));
+            let _ = engine.process(Event::new("In").with_field("id", i as i64)).await;
+        }
+    });
+    while rx.try_recv().is_ok() {}
+    drop(engine);
+    verif_clock::set(None);
+    let content = std::fs::read_to_string(&dlq_path).unwrap_or_default();
+    let mut entries = Vec::new();
+    for l in content.lines() {
+        let e = match serde_json::from_str::<serde_json::Value>(l) {
+            Ok(v) => match (v["connector"].as_str(), v["error"].as_str(), v["event"]["data"]["id"].as_i64(), v["timestamp"].is_string()) {
+                (Some(c), Some(e), Some(i), true) => format!("{}|{}|{}", hex(c), hex(e), i),
+                _ => "unreadable".to_string(),
+            },
+            Err(_) => "unreadable".to_string(),
+        };
+        entries.push(e);
+    }
+    let _ = std::fs::remove_file(&dlq_path);
+    let msg = std::io::Error::from_raw_os_error(28).to_string();
+    ctx.directive(&format!("new sink 5 30000 {}", hex("Out")));
+    ctx.count("engine-wrap_with_resilience");
+    ctx.case(&format!("engine {} {}", n, hex(&msg)), &format!("dlq={}", if entries.is_empty() { "-".to_string() } else { entries.join(";") }));
+}
+
 pub fn run(ctx: &mut Ctx, _name: &str) {
+    for n in [3u64, 5, 6, 12] { engine_case(ctx, n); }
     // recorded witness of the repaired defect: three consecutive allow_request() while half-open
     play_breaker(ctx, 1, 100, &[B::Allow, B::Fail(0), B::Tick(100), B::Allow, B::Allow, B::Allow, B::Ok(0)]);
     // known finding C45-stale-result: a call admitted before the breaker opened completes while half-open
